@@ -272,6 +272,10 @@ def instances(tier, seed):
                  budget_s=300, max_decisions=400),
         Instance('send_terminates', 'send_terminates', {}, W=96,
                  budget_s=300, max_decisions=64, conc_timeout_s=5),
+        Instance('send_history:3x7', 'send_history',
+                 {'steps': 3, 'hi_bits': 7}, W=64, budget_s=300,
+                 max_decisions=400,
+                 note='one-byte values: every fault pattern of 3 steps'),
         Instance('send_history:2', 'send_history', {'steps': 2}, W=64,
                  budget_s=300, max_decisions=400,
                  note='history independence: earlier failed or rejected '
